@@ -4,10 +4,11 @@ pub use methods::dispatch as abs;
 
 #[dispatch]
 mod methods {
-    use crate::CelValue;
+    use crate::{CelError, CelResult, CelValue};
 
-    fn abs(n: i64) -> i64 {
-        n.abs()
+    fn abs(n: i64) -> CelResult<i64> {
+        n.checked_abs()
+            .ok_or_else(|| CelError::value("abs() overflow"))
     }
 
     fn abs(n: u64) -> u64 {
